@@ -200,3 +200,26 @@ def lex_rules():
            'Definition gen_num_before_float : bool := %s.' % num_first]
     _write('Gen_LexRules.v', '\n'.join(out) + '\n')
     return dict(literals=[(t, k) for t, k, _ in lits], others=sorted(others), defs=sorted(F['defs']))
+
+
+def newline_actions():
+    """every rule of lexer.l whose action reports line breaks to the position tracker: (start condition, pattern, argument of tracker.newline),
+    sorted; a local that only names the argument (`const auto n = yyleng / 2; ... newline(ch, n)`) is looked through.  Written to
+    gen/Gen_NewlineActions.v; LexLines.v proves what a scanner with the four reference actions reports."""
+    F = flex_rules()
+    out = []
+    for conds, pat, action in F['rules']:
+        for m in re.finditer(r'\bnewline\s*\(\s*ch\s*,\s*([^;]*?)\)\s*;', action):
+            arg = m.group(1).strip()
+            if re.fullmatch(r'[A-Za-z_]\w*', arg) and arg != 'yyleng':
+                d = re.search(r'\b%s\s*=\s*([^;]+);' % re.escape(arg), action)
+                if d:
+                    arg = d.group(1).strip()
+            arg = re.sub(r'\s+', '', arg)
+            arg = re.sub(r'^\((.*)\)$', r'\1', arg)
+            out.append((','.join(conds) if conds else 'INITIAL', pat, arg))
+    out.sort()
+    lines = ['(* generated by tools/gen_lex.py from src/lexer.l — do not edit *)', 'From Coq Require Import List String.', 'Import ListNotations.', 'Local Open Scope string_scope.',
+             'Definition gen_newline_actions : list (string * string * string) :=', '  [' + ';\n   '.join('(%s, %s, %s)' % (_cq(c), _cq(p), _cq(a)) for c, p, a in out) + '].']
+    _write('Gen_NewlineActions.v', '\n'.join(lines) + '\n')
+    return out
